@@ -580,6 +580,8 @@ where
 
 struct Stub {
     regs: BTreeMap<u64, bool>,
+    /// number of measurement messages handled; published as `root_delay` of the snapshot
+    n: i64,
 }
 
 struct StubSrc<D>(PhantomData<D>);
@@ -618,6 +620,7 @@ impl InternalTimeSyncController for Stub {
     ) -> Result<Self, std::io::Error> {
         Ok(Stub {
             regs: BTreeMap::new(),
+            n: 0,
         })
     }
     fn take_control(&mut self) -> Result<(), std::io::Error> {
@@ -647,9 +650,13 @@ impl InternalTimeSyncController for Stub {
         }
     }
     fn source_message(&mut self, _id: ClockId, flags: i8) -> InternalStateUpdate<u8> {
+        self.n += 1;
         InternalStateUpdate {
             source_message: (flags & 1 != 0).then_some(1),
-            time_snapshot: None,
+            time_snapshot: Some(crate::system::TimeSnapshot {
+                root_delay: NtpDuration::from_fixed_int(self.n),
+                ..crate::system::TimeSnapshot::default()
+            }),
             used_sources: Some(
                 self.regs
                     .iter()
@@ -1884,11 +1891,246 @@ fn phases(quick: bool) -> Vec<Phase> {
     ph
 }
 
+
+// ---------------------------------------------------------------------------------
+// publication under lock contention (observer holds `used_sources` / `snapshot`)
+// ---------------------------------------------------------------------------------
+
+/// State letter of a thread from /proc/<pid>/task/<tid>/stat ('S' = sleeping, e.g. in a futex wait).
+fn thread_state(stat_path: &Option<String>) -> Option<char> {
+    let text = std::fs::read_to_string(stat_path.as_ref()?).ok()?;
+    let rest = &text[text.rfind(')')? + 1..];
+    rest.trim_start().chars().next()
+}
+
+/// Run `poll` on the calling thread while a helper thread holds the wrapper's
+/// `used_sources` (which = 0) or `snapshot` (which = 1) mutex through the integrator's
+/// probe. The helper releases as soon as `poll` has returned, or once the polling thread
+/// has been observed asleep (blocked on the mutex) for >= 50 ms. Returns
+/// (poll was blocked, dead-man cap hit). The verdict taken afterwards does not depend on
+/// timing: a blocking publication completes after the release, a skipped one stays skipped.
+fn poll_with_lock_held<T>(ctrl: &Wrapper<T>, which: u8, poll: impl FnOnce()) -> (bool, bool)
+where
+    T: InternalTimeSyncController<Clock = MockClock> + Twin,
+{
+    use std::sync::atomic::{AtomicBool, Ordering::SeqCst};
+    let stat_path = std::fs::read_link("/proc/thread-self").ok().map(|p| format!("/proc/{}/stat", p.display()));
+    let (locked, started, done, blocked, capped) =
+        (AtomicBool::new(false), AtomicBool::new(false), AtomicBool::new(false), AtomicBool::new(false), AtomicBool::new(false));
+    std::thread::scope(|s| {
+        s.spawn(|| {
+            let body = || {
+                locked.store(true, SeqCst);
+                let t0 = std::time::Instant::now();
+                let mut asleep_since: Option<std::time::Instant> = None;
+                loop {
+                    if done.load(SeqCst) {
+                        break;
+                    }
+                    if started.load(SeqCst) {
+                        let asleep = match thread_state(&stat_path) {
+                            Some(c) => c == 'S',
+                            // no /proc: fall back to elapsed time since the poll started
+                            None => true,
+                        };
+                        if asleep {
+                            let since = *asleep_since.get_or_insert_with(std::time::Instant::now);
+                            if since.elapsed() >= Duration::from_millis(50) {
+                                blocked.store(true, SeqCst);
+                                break;
+                            }
+                        } else {
+                            asleep_since = None;
+                        }
+                    }
+                    if t0.elapsed() > Duration::from_secs(20) {
+                        capped.store(true, SeqCst);
+                        break;
+                    }
+                    std::thread::sleep(Duration::from_millis(1));
+                }
+            };
+            if which == 0 {
+                h5::with_used_sources_locked(ctrl, body)
+            } else {
+                h5::with_snapshot_locked(ctrl, body)
+            }
+        });
+        while !locked.load(SeqCst) {
+            std::thread::yield_now();
+        }
+        started.store(true, SeqCst);
+        poll();
+        done.store(true, SeqCst);
+    });
+    (blocked.load(SeqCst), capped.load(SeqCst))
+}
+
+fn dur_raw(d: NtpDuration) -> i64 {
+    (d.to_seconds() * 4294967296.0).round() as i64
+}
+
+fn parse_ops(text: &str) -> Vec<(usize, Op)> {
+    // "aU bU aM bM aD bM"
+    text.split_whitespace()
+        .filter_map(|t| {
+            let mut c = t.chars();
+            let s = (c.next()? as u8).checked_sub(b'a')? as usize;
+            Some((s, Op::from_ch(c.next()?)?))
+        })
+        .collect()
+}
+
+/// One execution: issue all `ops`, then let the loop handle them one per poll; the poll
+/// of step `lock_step` runs while an observer holds mutex `which`. Returns
+/// (observation, violations, blocked, capped).
+fn contention_run(ops_text: &str, lock_step: usize, which: u8) -> (String, Vec<(&'static str, String)>, bool, bool) {
+    let ops = parse_ops(ops_text);
+    let case = Case { kind: KIND_STUB, timer: 0, srcs: vec![src(0, vec![]), src(1, vec![])] };
+    let rt = new_runtime();
+    reset_thread_state();
+    let mut viol: Vec<(&'static str, String)> = Vec::new();
+    let mut blocked = false;
+    let mut capped = false;
+    let mut obs = String::new();
+    let r = common::catch(|| {
+        rt.block_on(async {
+            let ctrl: Wrapper<Stub> =
+                <Wrapper<Stub> as TimeSyncController>::new(MockClock, sync_config(), algo_config(KIND_STUB)).expect("new");
+            let mut handles: Vec<Option<Handle<Stub>>> = vec![Some(register(&ctrl, &case, 0)), Some(register(&ctrl, &case, 1))];
+            h5::reset_iterations();
+            h5::arm(true);
+            let mut run = std::pin::pin!(tokio::task::unconstrained(ctrl.run()));
+            let mut cx = Context::from_waker(Waker::noop());
+            let _ = run.as_mut().poll(&mut cx);
+            let mut mcount = [0usize; 2];
+            let mut is_measure: Vec<bool> = Vec::new();
+            for (i, op) in &ops {
+                match op {
+                    Op::M => {
+                        if let Some(h) = handles[*i].as_mut() {
+                            do_measure(h, &case, *i, mcount[*i]);
+                            mcount[*i] += 1;
+                            is_measure.push(true);
+                        }
+                    }
+                    Op::Up | Op::Un => {
+                        match handles[*i].as_mut() {
+                            Some(Handle::Two(w)) => w.set_usable(*op == Op::Up),
+                            Some(Handle::One(w)) => w.set_usable(*op == Op::Up),
+                            None => {}
+                        }
+                        is_measure.push(false);
+                    }
+                    Op::D => {
+                        handles[*i] = None;
+                        is_measure.push(false);
+                    }
+                    Op::R => {}
+                }
+            }
+            let mut last_used: Vec<u64> = Vec::new();
+            let mut msgs = 0i64;
+            for step in 0..is_measure.len() {
+                let from = log_len();
+                if step == lock_step {
+                    let (b, c) = poll_with_lock_held(&ctrl, which, || {
+                        let _ = run.as_mut().poll(&mut cx);
+                    });
+                    blocked = b;
+                    capped = c;
+                } else {
+                    let _ = run.as_mut().poll(&mut cx);
+                }
+                LOG.with(|l| {
+                    for ev in &l.borrow()[from..] {
+                        if let Ev::Msg { used: Some(u), .. } = ev {
+                            last_used = u.clone();
+                            msgs += 1;
+                        }
+                    }
+                });
+                let (snap, used) = ctrl.synchronization_state();
+                let mut used: Vec<u64> = used.iter().map(|c| c.0).collect();
+                used.sort_unstable();
+                obs.push_str(&format!("step{step}{}:used={used:?}/reported={last_used:?},snap={}/{msgs} ", if step == lock_step { "*" } else { "" }, dur_raw(snap.root_delay)));
+                if used != last_used {
+                    viol.push((
+                        "C37:used-publication-skipped",
+                        format!("after loop step {step} synchronization_state() lists used sources {used:?} but the controller last reported {last_used:?} (publication lost while an observer held the used_sources lock)"),
+                    ));
+                }
+                if snap.root_delay != NtpDuration::from_fixed_int(msgs) {
+                    viol.push((
+                        "C37:snapshot-publication-skipped",
+                        format!("after loop step {step} synchronization_state() returns time snapshot #{} but the controller last reported #{msgs}", dur_raw(snap.root_delay)),
+                    ));
+                }
+            }
+            h5::arm(false);
+        })
+    });
+    h5::arm(false);
+    if let Err(p) = r {
+        viol.push(("C37:panic", format!("code under test panicked: {p}")));
+    }
+    viol.dedup_by(|a, b| a.0 == b.0);
+    (obs, viol, blocked, capped)
+}
+
+const CONTENTION_SCRIPTS: [&str; 3] = ["aU bU aM bM aD bM", "aU bU aM au bM", "aU aM bU bM bD aM"];
+
+fn contention_family(ctx: &Ctx) {
+    for ops in CONTENTION_SCRIPTS {
+        let parsed = parse_ops(ops);
+        for (step, (_, op)) in parsed.iter().enumerate() {
+            if *op != Op::M {
+                continue; // only steps that publish a used set / snapshot
+            }
+            for which in 0..2u8 {
+                let (obs, viol, blocked, capped) = contention_run(ops, step, which);
+                ctx.inc("contention_schedules");
+                ctx.inc("evaluations");
+                ctx.add("transitions", parsed.len() as u64);
+                if blocked {
+                    ctx.inc("contention_polls_blocked_until_release");
+                } else {
+                    ctx.inc("contention_polls_not_blocked");
+                }
+                if capped {
+                    ctx.cap_hit("dead-man timer released a contention schedule after 20 s");
+                }
+                ctx.distinct(common::hash_of(&("lock", ops, step, which)));
+                if step == 4 && which == 0 {
+                    ctx.sample(format!("lock;{ops};{step};{which} -> {obs}"));
+                }
+                for (class, what) in viol {
+                    ctx.violation(class, what, format!("lock;{ops};{step};{which}"));
+                }
+            }
+        }
+    }
+}
+
 // ---------------------------------------------------------------------------------
 // check / replay
 // ---------------------------------------------------------------------------------
 
 fn replay(ctx: &Ctx, trace: &str) -> String {
+    if let Some(rest) = trace.strip_prefix("lock;") {
+        let parts: Vec<&str> = rest.split(';').collect();
+        if parts.len() != 3 {
+            return "unparsable lock trace".into();
+        }
+        let (obs, viol, _blocked, _capped) = contention_run(parts[0], parts[1].parse().unwrap_or(0), parts[2].parse().unwrap_or(0));
+        let mut out = String::new();
+        for (class, what) in viol {
+            ctx.violation(class, what.clone(), trace);
+            out.push_str(&format!("VIOLATION {class}: {what}; "));
+        }
+        out.push_str(&obs);
+        return out;
+    }
     let Some((case_s, sched_s)) = trace.split_once(';') else {
         return "unparsable trace".into();
     };
@@ -1946,6 +2188,8 @@ fn check() {
     ctx.assume("hook H5 (one loop iteration per poll) and the recording proxy Rec<T> do not change behaviour; tokio select! fairness: both branch outcomes are forced by re-execution");
     ctx.assume("Kalman runs: maximum_source_uncertainty = 10 s, minimum_agreeing_sources = 1, sources stay in the initial filter phase (< 8 samples); float payloads are excluded from outcome identity");
 
+    ctx.assume("contention family: an observer holding the used_sources / snapshot mutex is emulated by a helper thread (integrator probes with_used_sources_locked / with_snapshot_locked); the polling thread counts as blocked once /proc reports it asleep for 50 ms");
+    contention_family(&ctx);
     let quick = ctx.quick();
     let mut total_states = 0u64;
     let mut capped = false;
